@@ -333,6 +333,9 @@ def _init_arg(cfg, kind="cp"):
     if cfg.get("init_as") == "object":
         from tensorly.cp_tensor import CPTensor
         arg = CPTensor(arg)
+    if cfg.get("init_readonly"):        # the caller's arrays are read-only: a legal start, nothing may be written into it
+        for a_ in ([arg[0]] if arg[0] is not None else []) + list(arg[1]):
+            a_.flags.writeable = False
     if cfg.get("init_reuse"):
         _SHARED_INIT[cfg["id"]] = arg
     return arg, (w, fs)
@@ -418,13 +421,20 @@ class _ViaWrapper:
             est = cls(rank, **{k: v for k, v in kw.items() if k in accepted}, **extra)
             if self.refit:
                 other = [np.asarray(s_) * 1.7 + 0.3 for s_ in data] if isinstance(data, list) else np.asarray(data)[..., ::-1] * 1.7 + 0.3
-                if self.refit == "order" and not isinstance(data, list) and np.ndim(data) >= 3:
+                if self.refit == "fit":
+                    other = None
+                elif self.refit == "order" and not isinstance(data, list) and np.ndim(data) >= 3:
                     other = np.asarray(data)[..., 0] * 1.7 + 0.3          # an estimator fitted before on a tensor of LOWER order
                 try:
-                    est.fit_transform(other)
+                    if other is not None:
+                        est.fit_transform(other)
                 except Exception:
                     pass
-            dec = est.fit_transform(data)
+            if self.refit == "fit":                       # `fit` then the stored attribute, instead of `fit_transform`
+                est.fit(data)
+                dec = est.decomposition_
+            else:
+                dec = est.fit_transform(data)
             # what the estimator exposes afterwards must be this fit's result, not an earlier one
             stored = getattr(est, "decomposition_", dec)
             try:
@@ -446,6 +456,18 @@ def _run_alg(cfg, data, cap, with_cb, tl, D):
     # argument forms: memory layout of the data, NumPy integer types for rank / budget
     if cfg.get("layout") == "F" and isinstance(data, np.ndarray):
         data = np.asfortranarray(data)
+    elif cfg.get("layout") == "strided" and isinstance(data, np.ndarray):
+        big = np.zeros(data.shape[:-1] + (data.shape[-1] * 2,), dtype=data.dtype)      # every other entry of a wider array
+        big[..., ::2] = data
+        data = big[..., ::2]
+    elif cfg.get("layout") == "readonly":
+        if isinstance(data, np.ndarray):
+            data = data.copy()
+            data.flags.writeable = False                  # a legal input: the routines have no business writing into it
+        elif isinstance(data, list):
+            data = [np.array(s_) for s_ in data]
+            for s_ in data:
+                s_.flags.writeable = False
     if cfg.get("np_ints"):
         cap = np.int64(cap)
         rank = np.int64(rank) if isinstance(rank, int) else [np.int64(r) for r in rank]
@@ -1190,6 +1212,19 @@ def driver_configs(tier, seed, algs=None):
                 init_as=init_as, tol="tiny", normalize=False, caps=[0, 1, 2, 3])
         add("parafac", shape=[4, 5, 3], rank=2, data="generic", init="user", init_weights=wk, tol="zero", normalize=False, caps=[0, 1, 2, 3])
         add("nn_parafac_hals", shape=[4, 5, 3], rank=2, data="nonneg", init="user", init_kind="nonneg", init_weights="positive", tol="tiny", normalize=False, caps=[0, 1, 2, 3])
+    # ---- alternative routes to the same guarantee: the einsum tenalg backend, read-only / strided inputs, `fit` + attribute
+    for alg, kw in (("parafac", {"data": "generic", "normalize": True}), ("parafac", {"data": "generic", "linesearch": True, "caps": [0, 1, 2, 6, 7, 8, 9]}),
+                    ("nn_parafac", {"data": "nonneg"}), ("nn_parafac_hals", {"data": "nonneg"}), ("tucker", {"data": "generic", "rank": [2, 2, 2]}),
+                    ("nn_tucker", {"data": "nonneg", "rank": [2, 2, 2]}), ("nn_tucker_hals", {"data": "nonneg", "rank": [2, 2, 2], "algorithm": "fista"}),
+                    ("parafac2", {"rows": [4, 5, 4], "shape": [3, 0, 4], "data": "generic"}), ("parafac2", {"rows": [4, 5, 4], "shape": [3, 0, 4], "data": "nonneg", "nn_modes": [0, 2]}),
+                    ("constrained_parafac", {"data": "nonneg", "constraints": {"non_negative": True}}), ("cmtf", {"data": "generic"}),
+                    ("rand_parafac", {"data": "generic", "max_stagnation": 0}), ("tr_als", {"data": "generic", "shape": [4, 3, 4], "rank": [2, 2, 2, 2], "ls_solve": "lstsq", "init": "random"})):
+        base = dict(shape=[4, 5, 3], rank=2, init=str(rng.choice(["svd", "random"])), tol="tiny", caps=[0, 1, 2, 3, 5])
+        base.update(kw)
+        add(alg, **dict(base, tenalg="einsum"))
+        add(alg, **dict(base, layout=str(rng.choice(["readonly", "strided"]))))
+        if alg in WRAPPERS:
+            add(alg, **dict(base, wrapper=True, wrapper_refit="fit", caps=[1, 3, 5]))
     # ---- three-way option interactions and paths that need many sweeps
     #  (a) missing entries x line search: an accepted jump replaces the imputed tensor AND its norm (line iterations are 6, 8, ...)
     for j in range(6 if thorough else 3):
@@ -1448,6 +1483,17 @@ def warm_configs(tier, seed):
     for dt, data in (("float32", "generic"), ("int64", "counts")):
         for fx in ([], [0], [2, 1]):
             add("tucker", shape=shape, rank=[2, 3, 2], data=data, data_dtype=dt, tol="zero", fixed=fx, caps=[0, 1, 2, 3])
+    # read-only initial arrays, and the einsum tenalg backend, for every routine
+    for alg, kw in (("parafac", {"data": "generic"}), ("nn_parafac", {"data": "nonneg", "init_kind": "nonneg", "tol": "tiny"}),
+                    ("nn_parafac_hals", {"data": "nonneg", "init_kind": "nonneg", "tol": "tiny"}),
+                    ("constrained_parafac", {"data": "nonneg", "init_kind": "nonneg", "constraints": {"non_negative": True}})):
+        for extra in ({"init_readonly": True}, {"tenalg": "einsum"}, {"init_readonly": True, "fixed": [0]}, {"tenalg": "einsum", "fixed": [1, 0]}):
+            base = dict(shape=shape, rank=2, init_weights="positive", tol="zero", caps=[0, 1, 2, 3])
+            base.update(kw)
+            base.update(extra)
+            add(alg, **base)
+    add("tucker", shape=shape, rank=[2, 3, 2], data="generic", tol="zero", tenalg="einsum", caps=[0, 1, 2])
+    add("tucker", shape=shape, rank=[2, 3, 2], data="generic", tol="zero", tenalg="einsum", fixed=[0], caps=[0, 1, 2])
     # weights that are ALMOST one (a tolerance in place of an exact test would drop them), all algorithms, twin runs
     for alg, kw in (("parafac", {"data": "generic"}), ("nn_parafac", {"data": "nonneg", "init_kind": "nonneg", "tol": "tiny"}),
                     ("nn_parafac_hals", {"data": "nonneg", "init_kind": "nonneg", "tol": "tiny"}),
